@@ -276,6 +276,9 @@ class MapStreamSpec(SeqSpec):
             ferr = sorted(rng.sample(range(n), min(n, rng.choice([1, 1, 2]))))
         cfg["ferr"] = ferr
         cfg["serr"] = mode == "serr" or (mode == "mix" and rng.random() < 0.3)
+        # every other failing source fails through the library's own stream.Error(E): after its n items each Next is answered
+        # by stream.Error(E).Next (n = 0: MapStream directly over stream.Error).  Derived from the case, no extra draw.
+        cfg["errorstream"] = bool(cfg["serr"] and (n + cfg["par"]) % 2 == 0)
         sg = []
         if rng.random() < 0.35:
             sg = sorted(rng.sample(range(n + 1), rng.randint(1, min(n + 1, 3))))
